@@ -201,7 +201,8 @@ def register(hub, props=("C13", "C15"), pool=None):
             prms = [v for k, v in call.kwargs.items() if isinstance(v, fd.FlodymArray)] + [a for a in call.args[1:] if isinstance(a, fd.FlodymArray)]
             if not prms:
                 return
-            foreign = [p for p in prms if any(l not in letters for l in p.dims.letters)]
+            own = {d.letter: tuple(d.items) for d in dims.dim_list}
+            foreign = [p for p in prms if any(l not in letters for l in p.dims.letters) or any(tuple(d.items) != own.get(d.letter) for d in p.dims.dim_list)]
             rec.event(M13R, sig=f"{cls}.{short}|{'foreign' if foreign else 'ok'}", cls=f"lifetime-params|{'foreign-dimension' if foreign else 'well-formed'}")
             if foreign and call.exc is None:
                 rec.violation(M13R, "lifetime-model-accepted-parameter-with-foreign-dimension", {"class": cls, "op": short, "model_dims": sorted(letters), "param_dims": list(foreign[0].dims.letters)}, prop="C13")
